@@ -31,8 +31,7 @@ MANIFEST_ENTRY = {
                   "(pattern, value) pairs each run, not regenerated from the file. Acceptance is observed through `erg check`; the transcription `accepted` is "
                   "compared with it and differences are reported, not required to vanish (1 of 45, 0 of 24 in the runs made). Two findings recorded, none fixed: "
                   "non-exhaustive match accepted (root C06-derefine-unsound); the arm test raises: a non-negative integer literal arm for negative integers and strings (`f(x: Int) = match x: 0 -> 0; _ -> 1; f(-1)` dies), the Nat arm and interval arms for strings. No Rust "
-                  "harness (tie driven from checks/c33.py through the erg CLI and python3.11 only); quick tier = 24 programs, 398 s wall on the loaded machine "
-                  "(over the 3-minute target, not measured idle); Bool/Float literals, tuple/record patterns, other targets not covered; no seeded-mutation run.",
+                  "harness (tie driven from checks/c33.py through the erg CLI and python3.11 only); quick tier = 24 programs + corpus, 36-49 s wall (223-476 s when the machine was saturated); Bool/Float literals, tuple/record patterns, other targets not covered; one seeded change run (C33-m12, left-open interval arm: missed at first because only closed intervals were generated, caught after all four forms and end-point sampling were added).",
     "technique": "Lean 4 proof (induction over the arm list) + differential runs of the real checker, emitted code and contains_operator",
 }
 
@@ -69,8 +68,35 @@ def t_senum(ks):
             ["enum", [["str", "s%d" % k] for k in ks]])
 
 
-def t_range(a, b):
-    return ("%d..%d" % (a, b), "(ref Int (and (ge %d) (le %d)))" % (a, b), lambda v: v[0] == "int" and a <= v[1] <= b, ["range", a, b])
+IV_OP = {"cc": "..", "oc": "<..", "co": "..<", "oo": "<..<"}
+
+
+def t_range(a, b, kind="cc"):
+    """the four interval forms: cc `a..b`, oc `a<..b` (left-open), co `a..<b`, oo `a<..<b`; the checker reads them as lo..hi with
+    lo = a (+1 if left-open), hi = b (-1 if right-open); at run time each form is its own Range class in lib/core/_erg_range.py"""
+    lo = a + (1 if kind[0] == "o" else 0)
+    hi = b - (1 if kind[1] == "o" else 0)
+    sexp = "(ref Int (and (ge %d) (le %d)))" % (a, b) if kind == "cc" else "(iv %s %d %d)" % (kind, a, b)
+    return ("%d%s%d" % (a, IV_OP[kind], b), sexp, lambda v: v[0] == "int" and lo <= v[1] <= hi, ["range", kind, a, b])
+
+
+def gen_range(rng, starts, widths):
+    """a non-empty interval of a random form"""
+    kind = rng.choice(["cc", "cc", "oc", "oc", "co", "oo"])
+    a = rng.choice(starts)
+    need = (1 if kind[0] == "o" else 0) + (1 if kind[1] == "o" else 0)
+    return t_range(a, a + need + rng.choice(widths), kind)
+
+
+def end_points(sexps):
+    """a-1, a, a+1, b-1, b, b+1 for every interval occurring in the model S-expressions: the sampled domain always holds both end
+    points of every interval arm and scrutinee interval (a changed `<` / `<=` in one Range class shows at exactly one of them)"""
+    pts = set()
+    for sx in sexps:
+        for a, b in re.findall(r"\(iv \w+ (-?\d+) (-?\d+)\)", sx) + re.findall(r"\(ge (-?\d+)\) \(le (-?\d+)\)", sx):
+            for c in (int(a), int(b)):
+                pts.update((c - 1, c, c + 1))
+    return pts
 
 
 def t_or(ts):
@@ -90,15 +116,14 @@ def gen_scrutinee(rng):
     if k in (3, 4):
         return t_enum(rng.sample([0, 1, 2, 3, 5, 10], rng.randint(1, 3)))
     if k == 5:
-        a = rng.choice([0, 1, 2])
-        return t_range(a, a + rng.choice([0, 1, 3, 9]))
+        return gen_range(rng, [0, 1, 2], [0, 1, 3, 9])
     if k == 6:
         return t_or([t_int(), t_str()])
     if k == 7:
         return t_or([t_enum(rng.sample([0, 1, 2, 3], rng.randint(1, 2))), t_str()])
     if k == 8:
         return t_or([t_nat(), t_senum([rng.choice(STRS)])])
-    return t_or([t_range(0, rng.choice([1, 3, 10])), t_enum([rng.choice([5, 11, 12])])])
+    return t_or([gen_range(rng, [0], [1, 3, 9]), t_enum([rng.choice([5, 11, 12])])])
 
 
 def gen_arm(rng, scrut, last):
@@ -116,8 +141,7 @@ def gen_arm(rng, scrut, last):
         t = t_senum([c])
         return ('"s%d"' % c, t[1], t[2], t[3])
     if k in (3, 4):
-        a = rng.choice([0, 1, 2, 3])
-        t = t_range(a, a + rng.choice([0, 1, 2, 8, 10]))
+        t = gen_range(rng, [0, 1, 2, 3], [0, 1, 2, 8, 10])
         return ("(i: %s)" % t[0], t[1], t[2], t[3])
     if k == 5:
         t = t_enum(rng.sample([0, 1, 2, 3, 5, 10, 11], rng.randint(1, 3)))
@@ -166,6 +190,8 @@ def type_of_sexp(x):
         return ("%d" % int(x[1]), "(lit %d)" % int(x[1]), t[2], None)
     if isinstance(x, str):
         return {"Int": t_int, "Nat": t_nat, "Str": t_str}.get(x, lambda: None)() if x != "Obj" else ("_", "Obj", lambda v: True, ["class", "Obj"])
+    if x[0] == "iv":
+        return t_range(int(x[2]), int(x[3]), x[1]) if x[1] in IV_OP else None
     if x[0] == "ref":
         base, p = x[1], x[2]
         if p[0] == "and" and p[1][0] == "ge" and p[2][0] == "le":
@@ -210,8 +236,12 @@ def val_sexp(v):
     return "(%s %d)" % (v[0], v[1])
 
 
-def domain(scrut):
-    vals = [("int", i) for i in INTS] + [("str", s) for s in STRS]
+def int_pool(sexps):
+    return sorted(set(INTS) | end_points(sexps))
+
+
+def domain(scrut, arms=()):
+    vals = [("int", i) for i in int_pool([scrut[1]] + [a[1] for a in arms])] + [("str", s) for s in STRS]
     return [v for v in vals if scrut[2](v)]
 
 
@@ -292,7 +322,7 @@ def gen_rows(ctx, erg, n_prog, seed):
             if rng.randrange(2) == 0 and arms[-1][0] != "_":
                 arms[-1] = ("_", "Obj", lambda v: True, ["class", "Obj"]) if rng.randrange(2) == 0 else \
                     (("(z: %s)" % scrut[0]), scrut[1], scrut[2], scrut[3])
-            vals = domain(scrut)
+            vals = domain(scrut, arms)
             cid = "m%d" % i
             inp = "(match %s (arms %s) (vals %s))" % (scrut[1], " ".join(a[1] for a in arms), " ".join(val_sexp(v) for v in vals))
             out = check_and_run(erg, wd, scrut, arms, vals, cid)
@@ -302,7 +332,7 @@ def gen_rows(ctx, erg, n_prog, seed):
             for j, a in enumerate(arms):
                 if a[3] is None:
                     continue
-                for v in [("int", k) for k in INTS] + [("str", s) for s in STRS]:
+                for v in [("int", k) for k in int_pool([a[1]])] + [("str", s) for s in STRS]:
                     contains_rows.append(("c%d_%d_%s%d" % (i, j, v[0][0], v[1]), a, v))
     finally:
         shutil.rmtree(wd, ignore_errors=True)
@@ -353,8 +383,8 @@ def run(ctx):
     ctx.cov["traces_validated_against_impl"] = res.agree
     ctx.cov["samples"] = [{"input": r[1][:300], "impl": r[2][:200]} for r in mr[:4]]
     ctx.cov["rule"] = ("generated `f(x: S) = match x: arms…` with S over Int/Nat/Str, literal enums, intervals, unions; 1-4 arms: literals, "
-                       "intervals, enums, class arms, union arm, wildcard; half of them made covering; every value of ⟦S⟧ from "
-                       "{-2,-1,0,1,2,3,5,10,11,12,\"s0\",\"s1\"} is passed; non-trivial = accepted match with a refinement or union")
+                       "intervals (all four forms a..b, a<..b, a..<b, a<..<b), enums, class arms, union arm, wildcard; half of them made covering; every value of ⟦S⟧ from "
+                       "{-2,-1,0,1,2,3,5,10,11,12,\"s0\",\"s1\"} plus both end points +-1 of every interval is passed; non-trivial = accepted match with a refinement or union")
     ctx.cov["input_distribution"] = {
         "match_programs": len(mr), "accepted": sum(r[2].startswith("(accept)") for r in mr),
         "values_run": sum(len(r[2].split("(taken")[1].split()) for r in mr if "(taken" in r[2]),
@@ -372,8 +402,9 @@ def run(ctx):
         if wit or hits:
             ctx.print_known(e, f"{e.get('summary', '')} [{len(hits)} case(s) of this class in this run]")
     if res.spec_viol:
-        v = sorted(res.spec_viol, key=lambda x: len(x[1]))[0]
-        ctx.violation({"kind": "implementation-violates-spec", "case_id": v[0], "input": v[1], "impl": v[2], "model": v[3], "spec": v[4],
+        v = sorted(res.spec_viol, key=lambda x: (not x[1].startswith("(match"), len(x[1])))[0]
+        c = case_of_sexp(v[1]) if v[1].startswith("(match") else None
+        ctx.violation({"kind": "implementation-violates-spec", "program": program(c[0], c[1], c[2]) if c else None, "case_id": v[0], "input": v[1], "impl": v[2], "model": v[3], "spec": v[4],
                        "inK": v[5], "others": [x[1] for x in res.spec_viol[1:6]]})
     elif other_dis or not proof["ok"] or mrc != 0:
         ctx.violation({"kind": "no-longer-shown", "proof_problems": proof["problems"], "build_log_tail": proof["log"][-3000:] if not proof["ok"] else "",
